@@ -401,19 +401,10 @@ struct Stats {
 
 // ---------------------------------------------------------------- RAII helpers --
 struct Tree { vnaproperty_t *root = nullptr; ~Tree() { vnaproperty_delete(&root, "."); } };
-// vnacal_free() of the pinned tree does not release the calibrations a container holds nor the vector
-// of calibration slots, and vnacal_new_add_* leaks a small matrix per standard (findings of other
-// checks: C03/C07/C16, not repaired here).  To keep the calibration route usable, (a) calibrations are
-// deleted explicitly before vnacal_free and (b) LeakSanitizer is told to ignore the allocations made
-// inside vnacal_new_* / vnacal_add_calibration and inside the vnacal_load of the calibration route
-// (NoLeakCheck).  Property allocations of vnacal_load stay under leak checking in the global-only route.
-struct Cal {
-    vnacal_t *v = nullptr;
-    ~Cal() { if (v) { int end = vnacal_get_calibration_end(v); for (int i = 0; i < end; i++) (void)vnacal_delete_calibration(v, i); vnacal_free(v); } }
-};
-extern "C" void __lsan_disable(void) __attribute__((weak));
-extern "C" void __lsan_enable(void) __attribute__((weak));
-struct NoLeakCheck { NoLeakCheck() { if (__lsan_disable) __lsan_disable(); } ~NoLeakCheck() { if (__lsan_enable) __lsan_enable(); } };
+// The pinned tree's vnacal_free() did not release calibrations and vnacal_new_add_* leaked a matrix per
+// standard; both were repaired (known-findings.json: vnacal_free leak, vnm_s_matrix double alloc), so the
+// calibration route runs under full leak checking like every other route.
+struct Cal { vnacal_t *v = nullptr; ~Cal() { if (v) vnacal_free(v); } };
 struct CalNew { vnacal_new_t *n = nullptr; ~CalNew() { if (n) vnacal_new_free(n); } };
 struct Fd { int fd = -1; ~Fd() { if (fd >= 0) close(fd); } };
 struct File { FILE *fp = nullptr; ~File() { if (fp) fclose(fp); } };
@@ -711,7 +702,6 @@ struct H {
 
     // cheap calibration: 1x1 T8, one frequency, error box e00 = 0.1, e10e01 = 0.9, e11 = 0.2
     int add_calibration(vnacal_t *vcp, ErrLog &log) {
-        NoLeakCheck nl;      // see Cal
         CalNew nw;
         nw.n = vnacal_new_alloc(vcp, VNACAL_T8, 1, 1, 1);
         PBT_CHECK(c, nw.n != nullptr, "C14.cal_setup", "vnacal_new_alloc failed: %s", ascii(log.text()).c_str());
@@ -781,8 +771,7 @@ struct H {
         dump_corpus("vnacal", text);
         ErrLog log2;
         Cal b;
-        if (with_cal) { NoLeakCheck nl; b.v = vnacal_load(path, errlog_fn, &log2); }
-        else b.v = vnacal_load(path, errlog_fn, &log2);
+        b.v = vnacal_load(path, errlog_fn, &log2);
         PBT_CHECK(c, b.v != nullptr, "C14.vnacal_load_failed", "vnacal_load refused the file written by vnacal_save (callback: %s)\n--- file ---\n%s", clip(ascii(log2.text()), 500).c_str(), clip(aesc(text), 1500).c_str());
         expect_quiet(log2, "C14.import_reported_error", "successful vnacal_load", text);
         expect_tree(vnacal_property_get_subtree(b.v, -1, "."), gmodel, "C14.vnacal_global_differs", "global properties after vnacal_save / vnacal_load", text);
@@ -803,9 +792,9 @@ struct H {
         st.labels(c, model, "");
         if (st.nontrivial()) c.nontrivial();
         if (c.want_desc) c.note("tree: %s", clip(ashow(model), 1800).c_str());
-        // plain only | + vnacal global | + vnacal global and per-calibration.  The calibration route is kept
-        // rare because its (ignored, see Cal) leaks make the engine run a 50 ms LeakSanitizer pass per case.
-        int route = c.weighted({14, 5, 1});
+        // plain only | + vnacal global | + vnacal global and per-calibration.  The calibration route is the
+        // most expensive one and is kept rarer.
+        int route = c.weighted({10, 6, 4});
         plain_roundtrip(model);
         if (route >= 1) {
             NodeP cmodel;
